@@ -50,6 +50,10 @@ def viewIsStore (view stored : List Nat) : Bool := view == stored
     both claim maps) is what the keeper still returns now — after any number of blocks, restarts and late claims. -/
 def finalKept (first : Prophecy) (now : Option Prophecy) : Bool := first.status != .pending && now == some first
 
+/-- the committed bytes of the oracle and ethbridge stores (digests over every key and value) are the same in every
+    execution of the same history: nothing of Go's map iteration order reaches the store -/
+def storeBytesSame (first now : String) : Bool := first == now
+
 /-- Finality as observed around one claim message: a prophecy that was not pending before the message is the
     same afterwards, the message did not succeed, and no balance or supply changed. -/
 def finalStable (before : Prophecy) (after : Option Prophecy) (ok : Bool) (bankSame : Bool) : Bool :=
